@@ -69,7 +69,7 @@ func runC15(tier string, seed uint64, out string) error {
 		// sampled single-byte damage, judged by the Coq checker
 		nd := ndam
 		if len(rc.p) > 5000 {
-			nd = 6 // every case carries the whole record as a literal: keep the big ones few
+			nd = 3 // every case carries the whole record as a literal: keep the big ones few
 		}
 		for k := 0; k < nd; k++ {
 			i := r.intn(len(enc))
@@ -86,7 +86,11 @@ func runC15(tier string, seed uint64, out string) error {
 		for n := 0; n < len(enc); n++ {
 			rate := 16
 			if len(enc) > 5000 {
-				rate = 2048
+				// a 70 kB literal per case (and gigabytes of coqc memory per shard of them): the
+				// ends and a few places in between
+				if n > 2 && n < len(enc)-2 && n != 14 && n != len(enc)-14 && !r.chance(1, 20000) {
+					continue
+				}
 			}
 			if len(enc) > 40 && n > 14 && n < len(enc)-14 && !r.chance(1, rate) {
 				continue
